@@ -33,6 +33,7 @@ type Type struct {
 	Len    int   // array length; -1 for a runtime-sized (unsized) array
 	Struct *StructDef
 	cells  int // number of scalar cells of a value of this type (0 for runtime-sized arrays)
+	half   bool // 16-bit float scalar/vector/matrix: exists only in layout-only parses (layoutonly.go)
 	name   string
 }
 
